@@ -251,6 +251,10 @@ func (g *Gen) distCase(i int) *Case {
 	// bias towards distributable aggregations in various positions
 	if g.chance(0.6) {
 		inner := g.vectorExpr(c, 1)
+		if g.chance(0.15) {
+			// a remote part that only the fallback of the remote engines can answer
+			inner = g.pick("sgn", "round", "sort") + "(" + g.selectorCore(g.metric()) + ")"
+		}
 		agg := g.pick("sum", "min", "max", "count", "group", "avg", "topk", "stddev")
 		grp := g.grouping()
 		var a string
